@@ -124,8 +124,9 @@ def precedes(ctx, key, body, first, second, desc, removed_edges=frozenset(), rul
         return ctx.ob(key, rule, body.path, desc, False, 'the site that must come first was not found', body.loc())
     if not second:
         return ctx.ob(key, rule, body.path, desc, not need_second, 'the site that must come second was not found', body.loc())
-    w = body.find_path([0], set(second), removed=set(first) - set(second), removed_edges=removed_edges)
-    # if a block is in both first and second it is trivially fine
+    # a block in both sets: the earlier site is a statement of the block whose terminator is the later site
+    rest = set(second) - set(first)
+    w = body.find_path([0], rest, removed=set(first), removed_edges=removed_edges) if rest else None
     return ctx.ob(key, rule, body.path, desc, w is None,
                   '' if w is None else 'path reaching the later site without the earlier one: ' + short_path(body, w), body.loc(second[0]))
 
@@ -797,3 +798,123 @@ def panic_site_autodischarge(body, site):
                                     return 'try_into of a constant tail of %d bytes into [u8; %d]' % (n, n)
         return None
     return None
+
+
+# ----------------------------------------------------------------------------- comparison predicates guarding a site
+
+_NEG = {'Gt': 'Le', 'Ge': 'Lt', 'Lt': 'Ge', 'Le': 'Gt', 'Eq': 'Ne', 'Ne': 'Eq'}
+_FLIP = {'Gt': 'Lt', 'Ge': 'Le', 'Lt': 'Gt', 'Le': 'Ge', 'Eq': 'Eq', 'Ne': 'Ne'}
+
+def guard_predicates(body, site):
+    """comparisons `x REL const` that must hold for `site` to be reached (from the switches the site
+    is control dependent on). Returns list of dicts {rel, const, fields, calls, block}."""
+    res = []
+    for (s, yes, no) in body.control_deps(site):
+        t = body.term(s)
+        if t['k'] != 'switch' or t['vals'] != [0] or len(t['ts']) != 2:
+            continue
+        zero_t, nz_t = t['ts']
+        l = op_local(t['a'])
+        flip = False
+        rel = None
+        for _ in range(5):
+            ds = body.defs().get(l, [])
+            if len(ds) != 1 or ds[0][2] != 'assign':
+                break
+            r = ds[0][3]['r']
+            if r['k'] == 'un' and r['op'] == 'Not':
+                flip = not flip
+                l = op_local(r['a'][0])
+                continue
+            if r['k'] == 'use' and op_local(r['a'][0]) is not None and len(op_place(r['a'][0])) == 1:
+                l = op_local(r['a'][0])
+                continue
+            if r['k'] == 'bin' and r['op'] in _NEG:
+                a, b2 = r['a']
+                op = r['op']
+                if 'i' in b2 and op_place(a) is not None:
+                    x, c = a, b2['i']
+                elif 'i' in a and op_place(b2) is not None:
+                    x, c = b2, a['i']
+                    op = _FLIP[op]
+                else:
+                    break
+                rel = (op, c, x)
+            break
+        if rel is None:
+            continue
+        op, c, x = rel
+        # which edge leads to the site?
+        if nz_t in yes and zero_t in no:
+            holds = True
+        elif zero_t in yes and nz_t in no:
+            holds = False
+        else:
+            continue
+        if flip:
+            holds = not holds
+        if not holds:
+            op = _NEG[op]
+        sl = backward_slice(body, [op_place(x)])
+        res.append({'rel': op, 'const': c, 'fields': sl.fields, 'calls': sl.calls, 'binops': sl.binops, 'block': s})
+    return res
+
+
+def must_reach_ok(F, pats):
+    """bodies in which every entry->Ok-return path passes a call matching pats (directly or through a
+    body already in the set). Least fixed point; error exits are cut."""
+    key = ('must_ok',) + tuple(pats)
+    cache = F.__dict__.setdefault('_must_cache', {})
+    if key in cache:
+        return cache[key]
+    S = set()
+    changed = True
+    while changed:
+        changed = False
+        for b in F.bodies.values():
+            if b.path in S:
+                continue
+            T = [bi for bi, t in b.calls() if call_matches(t, pats) or any(n in S for n in call_names(t))]
+            if not T or not b.return_blocks():
+                continue
+            if ok_return_unreachable_avoiding(b, T) is None:
+                S.add(b.path); changed = True
+    cache[key] = S
+    return S
+
+
+def must_sites(body, pats):
+    """call blocks that match pats or call a crate body that must-reach pats on its Ok paths
+    (helper extraction is transparent)."""
+    S = must_reach_ok(body.facts, pats)
+    nb = body.normal_blocks()
+    return [bi for bi, t in body.calls() if bi in nb and (call_matches(t, pats) or any(n in S for n in call_names(t)))]
+
+
+def loop_continues_after_flag(ctx, key, body, site, field, desc, rule='K3-loop-exit'):
+    """after the flag `field` was observed SET, the loop around `site` can still reach `site`
+    again (the worker keeps going while work remains)."""
+    ok = False
+    n = 0
+    for bi in body.normal_blocks():
+        t = body.term(bi)
+        if t['k'] != 'switch' or t['vals'] != [0] or len(t['ts']) != 2:
+            continue
+        p = op_place(t['a'])
+        if p is None:
+            continue
+        sl = backward_slice(body, [p])
+        if field in sl.fields and any(re.search(r'atomic::Atomic.*::load$', c) for c in sl.calls) and not (sl.binops - {'Not'}):
+            flip = False
+            l = p[0]
+            for _ in range(4):
+                ds = body.defs().get(l, [])
+                if len(ds) == 1 and ds[0][2] == 'assign' and ds[0][3]['r']['k'] == 'un' and ds[0][3]['r']['op'] == 'Not':
+                    flip = not flip; l = op_local(ds[0][3]['r']['a'][0])
+                else:
+                    break
+            set_t = t['ts'][0] if flip else t['ts'][1]
+            n += 1
+            if site in body.reachable_from([set_t]):
+                ok = True
+    return ctx.ob(key, rule, body.path, desc, ok, ('no branch on a load of %s' % field) if n == 0 else ('' if ok else 'once the flag is set the loop body is unreachable: queued work is abandoned'), body.loc(site))
